@@ -180,6 +180,7 @@ package db
 //@   ensures [hdr] varint_len(mem(r), off(r), len(r)) == -1 ==> err != nil
 //@   ensures [storable] forall k int :: 0 <= k && k < len(r0) ==> storable(r0[k])
 //@   ensures [fresh] r0 == nil || fresh(r0)
+//@   trusted-ensures [token] err == nil ==> parsed(r0, r)
 //@   loop 1 invariant within(header, r)
 //@   loop 1 invariant suffix_of(body, r)
 //@   loop 1 invariant 0 <= len(res) && len(res) <= cap(res) && (reg(res) == 0 || fresh(res)) && (reg(res) == 0 ==> len(res) == 0 && cap(res) == 0) && ule(off(res), 0)
